@@ -114,6 +114,11 @@ mutual
         | some (rest2, code2) => some (rest2, code2 ++ [.pushq (.int (-1)), .op .mul])
         | none => none
       | .op "+" :: rest => atom f (rest, code)
+      | .op "not" :: rest =>
+        -- `_rvalue(PUSH)` → `_rvalue_not`: a whole expression follows, then `OP NOT`
+        match expression f (rest, code) with
+        | some (rest2, code2) => some (rest2, code2 ++ [.op .not])
+        | none => none
       | .atom c :: rest => some (rest, code ++ c)
       | _ => none
 end
